@@ -94,6 +94,9 @@ def run_property(prop, tier, root, quiet=False, overrides=None):
     R.info["modules parsed"] = len(eng.p.modules)
     mod = importlib.import_module("kv.rules." + modname)
     mod.run(eng, R)
+    from .rules import tolerance
+
+    tolerance.census(eng, R, prop)
     st = eng.eff.stats
     R.info["call sites seen by effect summaries"] = "%d (resolved %d, opaque %d)" % (st["calls"], st["resolved"], st["opaque"])
     return R, explanation
